@@ -333,6 +333,20 @@ fn progress_bar(counts: &StateCounts, bar_size: usize) -> String {
     bar
 }
 
+/// Verification hooks: access to the private rendering helpers.
+#[cfg(n2_verif)]
+pub mod verif_hooks {
+    pub fn task_message(message: &str, seconds: usize, max_cols: usize) -> String {
+        super::task_message(message, seconds, max_cols)
+    }
+    pub fn truncate(s: &str, max: usize) -> &str {
+        super::truncate(s, max)
+    }
+    pub fn progress_bar(counts: &super::StateCounts, bar_size: usize) -> String {
+        super::progress_bar(counts, bar_size)
+    }
+}
+
 #[cfg(test)]
 mod tests {
     use super::*;
